@@ -56,7 +56,7 @@ func genVestingWalk(r *rand.Rand, n int) []Step {
 			st = append(st, Step{"a": "vestLiquid", "u": u, "d": "uusdc", "amt": pick(r, "1000", "7", "500000")})
 		case 14:
 			// Eden / EdenB in and out of the committed bucket (uncommitting Eden burns EdenB proportionally)
-			st = append(st, Step{"a": pick(r, "commitClaimed", "commitClaimed", "uncommit"), "u": u, "d": pick(r, "ueden", "uedenb"), "frac": pick(r, "third", "half", "all", "one")})
+			st = append(st, Step{"a": pick(r, "commitClaimed", "commitClaimed", "uncommit"), "u": u, "d": pick(r, "ueden", "uedenb"), "frac": pick(r, "third", "half", "all", "one", "over", "twice")})
 		default:
 			st = append(st, Step{"a": "block", "n": float64(pick(r, 1, 1, 1, 2, 3, 7))})
 		}
@@ -302,10 +302,10 @@ func genChainWalk(r *rand.Rand, n int) []Step {
 		u := pick(r, users...)
 		switch r.Intn(34) {
 		case 31: // commitment's staking front end: uelys delegated to the validator, Eden / EdenB committed
-			st = append(st, Step{"a": "stake", "u": u, "d": pick(r, "uelys", "uelys", "ueden", "uedenb", "uusdc", "amm/pool/2"), "frac": pick(r, "one", "tiny", "third", "half")})
+			st = append(st, Step{"a": "stake", "u": u, "d": pick(r, "uelys", "uelys", "ueden", "uedenb", "uusdc", "amm/pool/2"), "frac": pick(r, "one", "tiny", "third", "half", "over", "twice")})
 		case 32:
 			// (the message accepts any denom: pool shares and vault shares are asked for too - only Elys, Eden and EdenB may come out)
-			st = append(st, Step{"a": "unstake", "u": pick(r, u, u, "u1"), "d": pick(r, "uelys", "uelys", "ueden", "uedenb", "amm/pool/1", "amm/pool/2", "stablestake/share"), "frac": pick(r, "one", "third", "half", "all")})
+			st = append(st, Step{"a": "unstake", "u": pick(r, u, u, "u1"), "d": pick(r, "uelys", "uelys", "ueden", "uedenb", "amm/pool/1", "amm/pool/2", "stablestake/share"), "frac": pick(r, "one", "third", "half", "all", "over", "twice")})
 		case 33:
 			if r.Intn(3) == 0 {
 				st = append(st, Step{"a": "setPortfolio", "u": u, "of": pick(r, users...)})
@@ -331,7 +331,7 @@ func genChainWalk(r *rand.Rand, n int) []Step {
 		case 6:
 			st = append(st, Step{"a": "bond", "u": u, "sz": pick(r, "1", "1000000", "250000000000")})
 		case 7:
-			st = append(st, Step{"a": "unbond", "u": pick(r, "u4", u), "frac": pick(r, "one", "third", "all")})
+			st = append(st, Step{"a": "unbond", "u": pick(r, "u4", u), "frac": pick(r, "one", "third", "all", "over")})
 		case 8, 9:
 			st = append(st, Step{"a": "levOpen", "u": u, "p": float64(1), "sz": pick(r, "1000000", "s1", "s2"), "lev": pick(r, "1.5", "2", "5", "9")})
 			nextLev++
@@ -365,7 +365,7 @@ func genChainWalk(r *rand.Rand, n int) []Step {
 		case 22:
 			st = append(st, Step{"a": "execOrders", "u": "bot", "spot": []any{float64(1 + r.Intn(3))}, "perp": []any{}})
 		case 25:
-			st = append(st, Step{"a": pick(r, "commitClaimed", "commitClaimed", "uncommit"), "u": u, "d": pick(r, "ueden", "uedenb"), "frac": pick(r, "third", "half", "most", "all", "one")})
+			st = append(st, Step{"a": pick(r, "commitClaimed", "commitClaimed", "uncommit"), "u": u, "d": pick(r, "ueden", "uedenb"), "frac": pick(r, "third", "half", "most", "all", "one", "over", "twice")})
 		case 26:
 			if r.Intn(3) == 0 {
 				st = append(st, Step{"a": "govDistrTax", "value": pick(r, "0", "0", "0.02", "0.5", "1")})
